@@ -31,7 +31,15 @@ RULE = ('client population: a real SFTP client issues k (2..12) concurrent '
         'unsupported type numbers and unknown extended names, followed by a '
         'sentinel stat; exactly one response per request id, of a type legal '
         'for the request, errno mapped to the status code the SFTP version '
-        'defines, and the sentinel answered correctly. attrs population: a '
+        'defines, and the sentinel answered correctly; READ requests of '
+        'drawn lengths (0 .. 2^32-1) through a handle opened for them: the '
+        'file\'s bytes come back and the application is never asked for '
+        'more than the maximum read length the server announces; extension '
+        'pairs (well-formed, empty, cut, junk) in FXP_INIT: the session may '
+        'be refused, the connection then serves another one and no internal '
+        'error ends it. The client population gets the same pairs in '
+        'FXP_VERSION: start_sftp_client() works or raises an SFTPError. '
+        'attrs population: a '
         'real client and the real server handler at each version 3..6 '
         'exchange drawn attribute sets via stat/listdir; fields the version '
         'can carry must arrive unchanged. Non-trivial = at least 2 requests; '
@@ -55,7 +63,8 @@ PROBES = ['pop_client', 'pop_server', 'pop_attrs', 'replies_reordered',
           'bad_reply_short_body', 'bad_reply_extra_body',
           'malformed_request', 'unsupported_request', 'errno_mapped',
           'v3', 'v4', 'v5', 'v6', 'realpath_without_control_byte',
-          'init_below_v3', 'time_before_1970', 'read_length_drawn']
+          'init_below_v3', 'time_before_1970', 'read_length_drawn',
+          'init_with_extensions', 'init_refused', 'version_with_extensions']
 
 ERRNOS = ['ENOENT', 'EACCES', 'EEXIST', 'EROFS', 'ENOSPC', 'EDQUOT',
           'ENOTEMPTY', 'ENOTDIR', 'ENAMETOOLONG', 'ELOOP', 'EINVAL',
@@ -90,6 +99,50 @@ LEGAL = {'stat': {W.ATTRS}, 'lstat': {W.ATTRS}, 'open': {W.HANDLE},
          'statvfs': {W.EXTENDED_REPLY}, 'limits': {W.EXTENDED_REPLY}}
 
 
+EXT_NAMES = ['vendor-id', 'supported', 'supported2', 'acl-supported',
+             'x@example.com']
+EXT_HOWS = ['good', 'good', 'empty', 'short', 'junk']
+
+
+def ext_data(name, how):
+    """Data of a well-known extension pair in INIT / VERSION"""
+
+    u16 = lambda v: v.to_bytes(2, 'big')
+    good = {
+        'vendor-id': string(b'vendor') + string(b'product') +
+        string(b'1.0') + u64(7),
+        'supported': u32(1) * 5 + string(b'a@b'),
+        'supported2': u32(1) * 5 + u16(0) + u16(0) + u32(1) +
+        string(b'attr@b') + u32(1) + string(b'a@b'),
+        'acl-supported': u32(0),
+        'x@example.com': b'1',
+    }[name]
+
+    if how == 'good':
+        return good
+    if how == 'empty':
+        return b''
+    if how == 'short':
+        return good[:len(good) // 2]
+
+    return b'\xff' * 7
+
+
+def gen_ext(rng):
+    return [[rng.choice(EXT_NAMES), rng.choice(EXT_HOWS)]
+            for _ in range(rng.between(1, 3))]
+
+
+def ext_malformed(ext):
+    return any(how != 'good' and name != 'x@example.com'
+               for name, how in ext or [])
+
+
+def ext_bytes(ext):
+    return b''.join(string(name.encode()) + string(ext_data(name, how))
+                    for name, how in ext or [])
+
+
 def gen_plan(rng):
     pop = rng.weighted([('client', 40), ('server', 40), ('attrs', 20)])
     plan = {
@@ -110,6 +163,10 @@ def gen_plan(rng):
                                     ('dup_id', 12), ('wrong_type', 12),
                                     ('short_body', 8), ('extra_body', 6)])
         plan['bad_at'] = rng.below(plan['k'] + 3)
+
+        if rng.chance(15):
+            # extension pairs in the server's VERSION
+            plan['ext'] = gen_ext(rng)
     elif pop == 'server':
         reqs = []
 
@@ -135,6 +192,10 @@ def gen_plan(rng):
         if rng.chance(10):
             plan['init_ver'] = rng.choice([0, 1, 2])
             plan['version'] = 3
+        elif rng.chance(15):
+            # extension pairs in the client's INIT (version 3 carries them)
+            plan['ext'] = gen_ext(rng)
+            plan['init_ver'] = plan['version'] = 3
     else:
         fields = {}
 
@@ -166,6 +227,16 @@ def gen_plan(rng):
 
 def valid_plan(plan):
     try:
+        for ent in plan.get('ext') or []:
+            if len(ent) != 2 or ent[0] not in EXT_NAMES or \
+                    ent[1] not in EXT_HOWS:
+                return False
+
+        if plan.get('ext') is not None and \
+                (not plan['ext'] or plan['pop'] == 'attrs' or
+                 (plan['pop'] == 'server' and plan.get('init_ver') != 3)):
+            return False
+
         if plan['pop'] not in ('client', 'server', 'attrs') or \
                 plan['version'] not in (3, 4, 5, 6):
             return False
@@ -181,8 +252,9 @@ def valid_plan(plan):
             return False
 
         if 'init_ver' in plan and (plan['pop'] != 'server' or
-                                   plan['init_ver'] not in (0, 1, 2) or
-                                   plan['version'] != 3):
+                                   plan['init_ver'] not in
+                                   ((3,) if plan.get('ext') else (0, 1, 2))
+                                   or plan['version'] != 3):
             return False
 
         if plan['pop'] == 'server':
@@ -209,7 +281,12 @@ def run_client(world, plan):
         fs.files[b'/file%d' % i] = bytearray(b'content-of-%d|' % i * (i + 1))
 
     policy = {'reorder': plan['reorder'],
-              'extensions': [(b'statvfs@openssh.com', b'2')]}
+              'extensions': [(b'statvfs@openssh.com', b'2')] +
+              [(name.encode(), ext_data(name, how))
+               for name, how in plan.get('ext') or []]}
+
+    if plan.get('ext'):
+        sim.probes['version_with_extensions'] += 1
 
     if plan['bad']:
         policy['bad_reply'] = (plan['bad'], plan['bad_at'] + 1)
@@ -267,6 +344,8 @@ def run_client(world, plan):
             res['results'] = done
         except (asyncssh.Error, OSError) as exc:
             res['start_error'] = exc
+        except Exception as exc: # pylint: disable=broad-except
+            res['start_crash'] = exc
 
         await world.gate('done')
         conn.close()
@@ -278,6 +357,18 @@ def run_client(world, plan):
     world.run_phase()
     s = stub.get('s')
     bad_hit = bool(s and s.bad_replies)
+
+    if 'start_crash' in res:
+        world.violation(
+            'undocumented-exception', 'start_sftp_client() raised %r '
+            'instead of an SFTPError (extensions in VERSION: %r)' %
+            (res['start_crash'], plan.get('ext')),
+            sig='start:' + type(res['start_crash']).__name__)
+    elif 'start_error' in res and not ext_malformed(plan.get('ext')):
+        world.violation('spurious-error', 'start_sftp_client() failed '
+                        'although the VERSION reply is well-formed: %r '
+                        '(extensions %r)' % (res['start_error'],
+                                             plan.get('ext')), sig='start')
 
     if not sim.loop.capped:
         pending = [t.sim_name for t in res.get('tasks', []) if not t.done()]
@@ -509,11 +600,39 @@ def run_server(world, plan):
         raw = RawSftp(w, r)
 
         try:
-            got_ver, _ = await raw.init(plan.get('init_ver', ver))
+            if plan.get('ext'):
+                sim.probes['init_with_extensions'] += 1
+
+            try:
+                got_ver, _ = await raw.init(plan.get('init_ver', ver),
+                                            ext_bytes(plan.get('ext')))
+            except (EOFError, asyncio.IncompleteReadError) as exc:
+                if not ext_malformed(plan.get('ext')):
+                    raise
+
+                # a malformed INIT ends this SFTP session -- and nothing
+                # else: the connection serves another one
+                res['init_refused'] = True
+                sim.probes['init_refused'] += 1
+
+                try:
+                    w, r, _ = await conn.open_session(subsystem='sftp',
+                                                      encoding=None)
+                    raw = RawSftp(w, r)
+                    got_ver, _ = await raw.init(3)
+                except (asyncssh.Error, OSError, EOFError,
+                        asyncio.IncompleteReadError) as exc2:
+                    world.violation(
+                        'connection-ended-by-malformed-init',
+                        'after an FXP_INIT with extension pairs %r the '
+                        'connection does not serve another SFTP session: '
+                        '%r' % (plan['ext'], exc2), sig='init_ext')
+                    return
+
             res['version'] = got_ver
             rid = 100
 
-            if 'init_ver' in plan:
+            if 'init_ver' in plan and not plan.get('ext'):
                 # the client asked for a version older than any that is
                 # implemented: what the server says it will speak has to be
                 # one it does speak
@@ -826,5 +945,9 @@ def run_plan(plan, sched_seed=None, sched_replay=None):
     else:
         sample = run_attrs(world, plan)
 
-    world.check_loop_health(allow_hang=True, loop_errors=False)
+    # (server population: the SSH layer of both ends behaves legally, only
+    # the SFTP bodies are hostile -- an exception escaping inside the library
+    # would take the whole connection down)
+    world.check_loop_health(allow_hang=True, loop_errors=False,
+                            internal_errors=plan['pop'] == 'server')
     return world.result(nontrivial=True, sample=sample)
